@@ -227,6 +227,29 @@ class CtorClosure(Rule):
         return out
 
 
+class QuestionFrom(Rule):
+    """D34: `CALL(..)?` -> `(match CALL(..) { Ok(v__) => v__, Err(e__) => return Err(From::from(e__)) })` for calls matching
+    `call_regex` (which must end at the opening paren).  This is the definition of `?`; it is spelled out where a postcondition
+    speaks about the converted error, because this Verus forgets the `From` impl's postcondition at a `?`."""
+    def __init__(self, id, call_regex, note="`?` written out so that the From conversion's contract is visible"):
+        Rule.__init__(self, id, call_regex, "", note)
+
+    def custom(self, src, m, item, in_skip):
+        out = []
+        for x in self.regex.finditer(m, item.body_open, item.body_close):
+            if in_skip(x.start()) or m[x.end() - 1] != "(":
+                continue
+            pc = rs.match_close(m, x.end() - 1)
+            q = pc + 1
+            while m[q].isspace():
+                q += 1
+            if m[q] != "?":
+                continue
+            out.append(Edit(x.start(), x.start(), "(match ", "rule", self.id))
+            out.append(Edit(q, q + 1, " { Ok(v__) => v__, Err(e__) => return Err(From::from(e__)) })", "rule", self.id))
+        return out
+
+
 class Loop:
     def __init__(self, invariants=(), decreases=None, iter_name=None, desugar_range_for=False, attrs=None, continue_hint=None,
                  except_break=(), ensures=(), optional=False, desugar_while_let=False):
